@@ -83,6 +83,12 @@ ResumeForeignId(m) == m.wrongSidResume > 0
 RefusedNotClosed(m) == Recovered(m) /\ \E x \in OpenAtLastCut(m) : ResumeRefused(m, x) /\ ~ReportedClosed(x)
 OtherStreamClosed(m) == Recovered(m) /\ \E x \in OpenAtLastCut(m) : ReportedClosed(x) /\ ~ResumeRefused(m, x) /\ ResumedOnLast(m, x)
                         /\ (\E r \in RangeS(m.resumeResps) : r.sid = x.sid /\ r.c = LastInc(m) /\ r.code = 1)
+\* "conflict" (18) is not a refusal: the broker still holds the stream for the old connection and asks the client to try again (the retry
+\* of the resume request is unbounded). A stream whose only answers were conflicts must not be reported closed.
+ConflictFatal(m) == Recovered(m) /\ \E x \in OpenAtLastCut(m) :
+                        /\ ReportedClosed(x) /\ ~ResumeRefused(m, x)
+                        /\ \E r \in RangeS(m.resumeResps) : r.sid = x.sid /\ r.c = LastInc(m) /\ r.code = 18
+                        /\ \A r \in RangeS(m.resumeResps) : (r.sid = x.sid /\ r.c = LastInc(m)) => r.code = 18
 \* requests issued around the outage must not fail with a connection error nor vanish
 CallFailed(m) == \E c \in RangeS(m.calls) : c.err # "" /\ (m.closeConnI = 0 \/ c.callI < m.closeConnI)
 CallHung(m) == m.hung > 0
@@ -102,7 +108,7 @@ MonVerdict(m) ==
     IF ~m.quiesced THEN Clause("TokenNotFresh", TokenNotFresh(m)) \cup Clause("ResumeForeignId", ResumeForeignId(m))
     ELSE Clause("TokenNotFresh", TokenNotFresh(m)) \cup Clause("NoRecovery", NoRecovery(m)) \cup Clause("StreamDetached", StreamDetached(m))
          \cup Clause("ResumeForeignId", ResumeForeignId(m)) \cup Clause("RefusedNotClosed", RefusedNotClosed(m))
-         \cup Clause("OtherStreamClosed", OtherStreamClosed(m)) \cup Clause("CallFailed", CallFailed(m)) \cup Clause("CallDropped", CallDropped(m)) \cup Clause("CallHung", CallHung(m))
+         \cup Clause("OtherStreamClosed", OtherStreamClosed(m)) \cup Clause("ConflictFatal", ConflictFatal(m)) \cup Clause("CallFailed", CallFailed(m)) \cup Clause("CallDropped", CallDropped(m)) \cup Clause("CallHung", CallHung(m))
          \cup Clause("NotifyWrong", NotifyWrong(m)) \cup Clause("ResumedNotifyWrong", ResumedNotifyWrong(m)) \cup Clause("ProbeFailed", ProbeFailed(m))
 MonStats(m) == [ outages |-> NOut(m), recovered |-> IF Recovered(m) THEN 1 ELSE 0, streams |-> Len(m.streams), resumeReqs |-> Len(m.resumeReqs),
                  calls |-> Len(m.calls), probes |-> Len(m.probes), refused |-> Cardinality({ x \in RangeS(m.streams) : ResumeRefused(m, x) }),
